@@ -445,9 +445,24 @@ def ser_check_serializing(ctx, mode):
             I.raise_('OSError')
         done = FreshBool('childDone')
         st = FreshInt('childStatus')
+        I.ctx.assume(z3.And(st >= 0, st < 65536))
+        I.ctx.track('childStatus', st)
         I.ctx.ghost['wait'] = [(done, st)]
         return (Ite(done, args[0], 0), st)
-    outcome, r, I = run_ser(ctx, ser, 'checkSerializing', [], externals={'os.waitpid': waitpid, 'os.WNOHANG': 1})
+    # POSIX wait status encoding (T-FORK): low 7 bits = terminating signal (0 if exited), next byte = exit code
+    def wexitstatus(I, a, k):
+        return (to_z3(a[0]) / 256) % 256
+
+    def wifexited(I, a, k):
+        return to_z3(a[0]) % 128 == 0
+
+    def wifsignaled(I, a, k):
+        return to_z3(a[0]) % 128 != 0
+
+    def wtermsig(I, a, k):
+        return to_z3(a[0]) % 128
+    outcome, r, I = run_ser(ctx, ser, 'checkSerializing', [], externals={'os.waitpid': waitpid, 'os.WNOHANG': 1, 'os.WEXITSTATUS': wexitstatus,
+                                                                       'os.WIFEXITED': wifexited, 'os.WIFSIGNALED': wifsignaled, 'os.WTERMSIG': wtermsig})
     ctx.prove(outcome == 'ok', 'C09:O9.3.no-exception-escapes', info=outcome)
     if outcome != 'ok':
         return
